@@ -297,37 +297,39 @@ Definition reraise_sch (fx : bool) (c : state) : oc * state :=
   | Some None => (OCrash, c)
   end.
 
-Fixpoint exec_sch (fx : bool) (s : cstmt) (c : state) {struct s} : oc * state :=
+Fixpoint exec_sch (fx sx : bool) (s : cstmt) (c : state) {struct s} : oc * state :=
   match s with
   | CSkip => (ONorm, c)
   | CLog n => (ONorm, logst (fun _ _ => EvLog n) c)
   | CProbe => (ONorm, logst ev_probe c)
   | CRaise w cz => lift (do_raise w cz) c
   | CReraise => reraise_sch fx c
-  | CSeq a b => let (o, c1) := exec_sch fx a c in
-                match o with ONorm => exec_sch fx b c1 | _ => (o, c1) end
+  | CSeq a b => let (o, c1) := exec_sch fx sx a c in
+                match o with ONorm => exec_sch fx sx b c1 | _ => (o, c1) end
   | CTry body hs orelse =>
-      let saved := handled c in                     (* __Pyx_ExceptionSave: topmost item *)
-      let (o, c1) := exec_sch fx body c in
+      (* __Pyx_ExceptionSave: the topmost non-empty item; sx = true: the proposed repair (top item,
+         symmetric with __Pyx_ExceptionReset and with PUSH_EXC_INFO) *)
+      let saved := if sx then top c else handled c in
+      let (o, c1) := exec_sch fx sx body c in
       match o with
-      | ONorm => let (o2, c2) := exec_sch fx orelse c1 in
+      | ONorm => let (o2, c2) := exec_sch fx sx orelse c1 in
                  match o2 with
                  | ONorm | OCrash => (o2, c2)       (* fall through: temps dropped, no reset *)
                  | _ => (o2, set_top saved c2)      (* except_error / except_return / break / continue *)
                  end
-      | ORaise e => handle_sch fx hs e saved c1
+      | ORaise e => handle_sch fx sx hs e saved c1
       | OCrash => (OCrash, c1)
       | _ => (o, set_top saved c1)                  (* try_return / try_break / try_continue *)
       end
   | CFinally herr body fin =>
-      let (o, c1) := exec_sch fx body c in
+      let (o, c1) := exec_sch fx sx body c in
       match o with
       | OCrash => (OCrash, c1)
       | ORaise e =>
           if herr then
             let saved := top c1 in                  (* __Pyx_ExceptionSwap: top item *)
             let old := cur c1 in
-            let (o2, c2) := exec_sch fx fin (set_cur (Some (Some e)) (set_top (Some e) c1)) in
+            let (o2, c2) := exec_sch fx sx fin (set_cur (Some (Some e)) (set_top (Some e) c1)) in
             let v := cur c2 in                      (* __Pyx_GetException above, exc_vars[:3] *)
             let c3 := set_cur old c2 in
             match o2 with
@@ -339,13 +341,13 @@ Fixpoint exec_sch (fx : bool) (s : cstmt) (c : state) {struct s} : oc * state :=
             | _ => (o2, set_top saved c3)           (* put_error_cleaner on every other exit *)
             end
           else (ORaise e, c1)
-      | _ => let (o2, c2) := exec_sch fx fin c1 in (after o o2, c2)
+      | _ => let (o2, c2) := exec_sch fx sx fin c1 in (after o o2, c2)
       end
   | CLoop n body =>
       (fix loop (i : nat) (c : state) : oc * state :=
          match i with
          | O => (ONorm, c)
-         | S i' => let (o, c1) := exec_sch fx body c in
+         | S i' => let (o, c1) := exec_sch fx sx body c in
                    match o with
                    | ONorm | OCont => loop i' c1
                    | OBrk => (ONorm, c1)
@@ -358,7 +360,7 @@ Fixpoint exec_sch (fx : bool) (s : cstmt) (c : state) {struct s} : oc * state :=
   | CDel x => (ONorm, set_co (unbind x (co c)) c)
   | CWithScope k body =>
       let old := wx c in
-      let (o, c1) := exec_sch fx body (set_wx true (logst (fun _ _ => EvEnter k) c)) in
+      let (o, c1) := exec_sch fx sx body (set_wx true (logst (fun _ _ => EvEnter k) c)) in
       (o, set_wx old c1)
   | CExitExc k x =>
       let arg := match cur c with Some (Some e) => Some e | _ => None end in
@@ -377,7 +379,7 @@ Fixpoint exec_sch (fx : bool) (s : cstmt) (c : state) {struct s} : oc * state :=
         end
       else (ONorm, c)
   end
-with handle_sch (fx : bool) (hs : chandlers) (e : nat) (saved : option nat) (c : state)
+with handle_sch (fx sx : bool) (hs : chandlers) (e : nat) (saved : option nat) (c : state)
        {struct hs} : oc * state :=
   match hs with
   | CHNil => (ORaise e, set_top saved c)            (* goto except_error_label: reset *)
@@ -386,23 +388,23 @@ with handle_sch (fx : bool) (hs : chandlers) (e : nat) (saved : option nat) (c :
         if (match name with Some _ => true | None => false end) || negb (trivial body) then
           let old := cur c in                        (* __Pyx_GetException: top item := e *)
           let c1 := set_cur (Some (Some e)) (set_co (bind_opt name e (co c)) (set_top (Some e) c)) in
-          let (o, c2) := exec_sch fx body c1 in
+          let (o, c2) := exec_sch fx sx body c1 in
           match o with
           | OCrash => (OCrash, c2)
           | _ => (o, set_top saved (set_cur old c2))  (* every exit: __Pyx_ExceptionReset *)
           end
         else                                         (* __Pyx_ErrRestore(0,0,0) *)
-          let (o, c1) := exec_sch fx body c in
+          let (o, c1) := exec_sch fx sx body c in
           match o with
           | OCrash => (OCrash, c1)
           | _ => (o, set_top saved c1)
           end
-      else handle_sch fx tl e saved c
+      else handle_sch fx sx tl e saved c
   end.
 
 (* ---------- entry points ---------- *)
 Definition init_state (h : list eobj) (t b : option nat) : state :=
   mkst (mkcore h [] []) t b None false.
 Definition run_ref (s : stmt) (h : list eobj) (t b : option nat) := exec_ref s (init_state h t b).
-Definition run_sch (fx : bool) (s : stmt) (h : list eobj) (t b : option nat) :=
-  exec_sch fx (desugar s) (init_state h t b).
+Definition run_sch (fx sx : bool) (s : stmt) (h : list eobj) (t b : option nat) :=
+  exec_sch fx sx (desugar s) (init_state h t b).
